@@ -330,7 +330,7 @@ def normalise_names(fd, unit):
 
 
 class Block:
-    __slots__ = ("id", "elems", "roots", "term", "termk", "rawcond", "cond", "succs", "psuccs",
+    __slots__ = ("_callfree", "id", "elems", "roots", "term", "termk", "rawcond", "cond", "succs", "psuccs",
                  "noreturn", "label", "labelk", "preds")
 
     def __repr__(self):
